@@ -7,7 +7,7 @@ TECH = "deterministic simulation with fault injection (seeded search over schedu
 NOTE = "trusted base: tokio's paused clock and current-thread scheduler, tmpfs, the harness's link/user/oracle code; a clean batch is evidence over the sampled scripts, not proof"
 
 CLAIMED = {
- "C01": ("sim", "exploration", "seeded search over (configuration, content, link-fault script) plus a storage-fault job (failed open, no staging file, full disk) with byte-identity oracle at every success report", "DESIGN.md 6/C01"),
+ "C01": ("sim", "exploration", "seeded search over (configuration, content, link-fault script) plus a storage-fault job (failed open, no staging file, full disk) and a corruption job (PDU CRC off, one data bit of a file-data PDU flipped under the modular checksum, every FileChecksumFailure handler) with byte-identity oracle at every success report", "DESIGN.md 6/C01"),
  "C02": ("sim", "fault_enumeration", "systematic single/pair fault placements over every PDU of both directions + seeded admissible scripts; completion oracle inside the stated envelope", "DESIGN.md 6/C02"),
  "C03": ("sim", "fault_enumeration", "cut-point sweep (blackout at every PDU index, either/both directions, permanent/healing) + crash-point sweep (either entity crashes after every PDU and is restarted on the surviving files after 1 ms .. never) + seeded unbounded link, stall, clock-jump and storage faults; virtual-time termination bound, canary transfers, spin guard", "DESIGN.md 6/C03"),
  "C04": ("sim", "fault_enumeration", "window-forcing losses x re-delivery of every previously sent PDU (pairs in the thorough tier) at several offsets after the receiver's success report; finality oracle over file digests, filestore-request executions and integrity reports", "DESIGN.md 6/C04"),
